@@ -190,6 +190,15 @@ func check(run *kit.Run, c route.Case) {
 				run.Violate("special|"+id, fmt.Sprintf("%s\nroutes: %s\nrequest: %s\nmethods serving this host and path per reference: %v\nfox: handler=%q status=%d allow=%q(set=%t) redirect=%t ctx.route-nil=%t ctx.pattern=%q ctx.params=%v scope=%d",
 					why, c.RoutesString(), q, serving, s.Seen.Kind, s.Status, s.Allow, s.HasAllow, s.Seen.Redirect, s.Seen.RouteNil, s.Seen.CtxPattern, s.Seen.Params, s.Seen.Scope), c)
 			}
+			// the redirect handler is one of "these handlers": whatever request it follows on the recycled context, its
+			// context exposes no route, pattern or parameters and reports the redirect scope
+			if s.Seen.Redirect && s.Seen.RedirSeen != nil {
+				rs := s.Seen.RedirSeen
+				run.Count("redirect_handler_contexts_checked", 1)
+				if !rs.RouteNil || rs.CtxPattern != "" || len(rs.Params) != 0 || rs.Scope != fox.RedirectHandler {
+					fail(fmt.Sprintf("the redirect handler's Context must expose no route, no pattern, no parameters and its own scope; it shows route-nil=%t pattern=%q params=%v scope=%d", rs.RouteNil, rs.CtxPattern, rs.Params, rs.Scope))
+				}
+			}
 			if ownServed {
 				run.Count("served(not this property)", 1)
 				run.Case(id, false)
